@@ -42,6 +42,24 @@ pub fn guarded<T>(desc: &dyn Fn() -> String, f: impl FnOnce() -> T) -> Result<T,
 pub enum Sep {
     Ascii,
     Uax,
+    /// WordSeparator::Custom reading its cut points (byte offsets of word starts) from CUTMAP: lets the free
+    /// opportunity sets TLC explores be replayed through the real split / break / wrap / re-assembly pipeline
+    Custom,
+}
+
+thread_local! {
+    /// line text -> byte offsets at which a new word starts (for Sep::Custom)
+    pub static CUTMAP: std::cell::RefCell<std::collections::HashMap<String, Vec<usize>>> = std::cell::RefCell::new(Default::default());
+}
+
+fn custom_sep(line: &str) -> Box<dyn Iterator<Item = Word<'_>> + '_> {
+    let cuts: Vec<usize> = CUTMAP.with(|m| m.borrow().get(line).cloned().unwrap_or_default());
+    let mut bounds: Vec<usize> = vec![0];
+    bounds.extend(cuts.into_iter().filter(|&c| c > 0 && c < line.len() && line.is_char_boundary(c)));
+    bounds.push(line.len());
+    bounds.dedup();
+    let words: Vec<Word<'_>> = if line.is_empty() { vec![] } else { bounds.windows(2).map(|w| Word::from(&line[w[0]..w[1]])).collect() };
+    Box::new(words.into_iter())
 }
 #[derive(Clone, Copy, PartialEq, Eq, Debug)]
 pub enum Splitter {
@@ -142,12 +160,14 @@ impl Sep {
             Sep::Uax => WordSeparator::UnicodeBreakProperties,
             #[cfg(not(feature = "full"))]
             Sep::Uax => panic!("harness: UAX separator requested in the no-default-features build"),
+            Sep::Custom => WordSeparator::Custom(custom_sep),
         }
     }
     pub fn name(self) -> &'static str {
         match self {
             Sep::Ascii => "ascii",
             Sep::Uax => "uax",
+            Sep::Custom => "custom",
         }
     }
 }
@@ -299,6 +319,11 @@ pub fn paras_json(ch: &mut Chunker, text: &str, o: &Opts) -> Value {
             let st = strip_own(p);
             let opps = uax_opps(&st);
             v.push(json!({"opps": opps, "st": ch.cps(&st)}));
+        } else if o.sep == Sep::Custom {
+            // the cut points handed to the custom separator, as 1-based character positions of word starts
+            let cuts: Vec<i64> = CUTMAP.with(|m| m.borrow().get(p).cloned().unwrap_or_default()).into_iter()
+                .filter(|&c| c > 0 && c < p.len() && p.is_char_boundary(c)).map(|c| char_pos(p, c)).collect();
+            v.push(json!({"opps": cuts, "st": []}));
         } else {
             v.push(json!({"opps": [], "st": []}));
         }
